@@ -208,6 +208,110 @@ def part_a(job):
 
 
 # ---------------------------------------------------------------------------------------------
+# Part C: requests started from inside a completion notification (the pattern the library's own one-wire and deck
+# memory classes use: header first, then the elements from the header's callback)
+# ---------------------------------------------------------------------------------------------
+def part_chain(job):
+    from cflib.crazyflie import Crazyflie
+    from cflib.crazyflie.mem import MemoryElement
+    cfh.setup()
+    first, second, same, fail_first, ln = job
+    p = Partial()
+    dev = _mk_device()
+    ex = cfh.Exec((), dev, time_limit=400.0, reply_menu=('once',), needs_resending=True)
+    ex.freeze()
+    state = {'armed': False}
+
+    def err_hook(port, chan, data):
+        if port == 4 and chan in (1, 2) and state.get('fail_next'):
+            state['fail_next'] = False
+            return [(simcf.SimCF.hdr(4, chan), bytes(data[:5]) + bytes([5]))]
+        return None
+    dev.hooks.append(err_hook)
+    rp = {'part': 'C', 'first': first, 'second': second, 'same_memory': same, 'first_fails': fail_first, 'len': ln}
+    name = '%s_then_%s:%s:%s' % (first, second, 'same_mem' if same else 'other_mem', 'after_failure' if fail_first else 'after_success')
+
+    def main():
+        cf = Crazyflie()
+        if not _connect(ex, cf):
+            p.violation('mem:setup:no_connect', 'could not connect to the empty device', rp)
+            return
+        mems = [MemoryElement(id=MEM_IDS[i], type=0x15, size=1 << 32, mem_handler=cf.mem) for i in range(2)]
+        m1, m2 = mems[0], (mems[0] if same else mems[1])
+        a1, a2 = 0x40, 0x240
+        d1, d2 = _content(a1, ln, 3), _content(a2, ln, 4)
+        before = {m.id: dict(dev.mem_by_id[m.id].cells) for m in mems}
+        got = {}
+
+        def issue(kind, mem, addr, data):
+            try:
+                return cf.mem.read(mem, addr, ln) if kind == 'r' else cf.mem.write(mem, addr, list(data))
+            except Exception as e:  # noqa
+                return e
+
+        def chain(*a):
+            # the first completion (whatever it is) starts the second request, from the thread that delivers it
+            if state['armed']:
+                state['armed'] = False
+                got['acc2'] = issue(second, m2, a2, d2)
+        # the chaining callback is registered before the observer, as an application's would be
+        for c in (cf.mem.mem_read_cb, cf.mem.mem_read_failed_cb, cf.mem.mem_write_cb, cf.mem.mem_write_failed_cb):
+            c.add_callback(chain)
+        obs = _Obs(ex, cf)
+        state['armed'] = True
+        state['fail_next'] = fail_first
+        got['acc1'] = issue(first, m1, a1, d1)
+        ex.wait_for(lambda: len(obs.events) >= 2, 5.0, 'wait.chain')
+        ex.s.sleep(0.05)
+        ev = [(e[0], e[1], e[2]) for e in obs.events]
+        p.case(key=('chain',) + tuple(job), outcome=(tuple(e[0] for e in ev), repr(got.get('acc2'))),
+               sample={'chain': name, 'notifications': ev} if ln == 21 else None)
+        k1 = ('read' if first == 'r' else 'write') + ('_fail' if fail_first else '_ok')
+        k2 = ('read' if second == 'r' else 'write') + '_ok'
+        want = [(k1, m1.id, a1), (k2, m2.id, a2)]
+        if got.get('acc1') is not True or got.get('acc2') is not True or ev != want:
+            p.violation('mem:chained_request:%s' % name, 'a %s of memory %d started from inside the completion notification of '
+                        'a %s of memory %d: accepted=%r/%r, notifications=%r, expected %r' % (
+                            second, m2.id, first, m1.id, got.get('acc1'), got.get('acc2'), ev, want), rp)
+        else:
+            if second == 'r':
+                exp = dev.mem_by_id[m2.id].read(a2, ln)
+                if obs.events[1][3] != exp:
+                    p.violation('mem:chained_request:data:%s' % name, 'chained read returned %s, device holds %s' % (
+                        obs.events[1][3].hex()[:60], exp.hex()[:60]), rp)
+            expect = {m.id: dict(before[m.id]) for m in mems}
+            if first == 'w' and not fail_first:
+                for i, b in enumerate(d1):
+                    expect[m1.id][a1 + i] = b
+            if second == 'w':
+                for i, b in enumerate(d2):
+                    expect[m2.id][a2 + i] = b
+            for m in mems:
+                if dict(dev.mem_by_id[m.id].cells) != expect[m.id] and not fail_first:
+                    p.violation('mem:chained_request:image:%s' % name, 'device image of memory %d differs from the data written' % m.id, rp)
+        rd_, wr_, lk_ = _internals(cf.mem)
+        if rd_:
+            p.violation('mem:chained_request:record_left_behind:%s' % name, '_read_requests=%r' % (list(rd_),), rp)
+        if wr_ is not None and any(wr_.get(k) for k in wr_):
+            p.violation('mem:chained_request:record_left_behind:%s' % name, '_write_requests=%r' % ({k: len(v) for k, v in wr_.items()},), rp)
+        if lk_ is not None and lk_.locked():
+            p.violation('mem:chained_request:lock_left_held:%s' % name, '_write_requests_lock is still held', rp)
+        cf.close_link()
+
+    ex.run(main)
+    if ex.s.status != 'ok':
+        p.violation('mem:partC:%s:%s' % (ex.s.status, name), 'part C did not complete: %r' % (ex.s.blocked_report,), rp)
+    if ex.s.died:
+        p.violation('mem:partC:thread_died:%s:%s' % (ex.s.died[0][1].split('(')[0], name), 'thread died: %r' % (ex.s.died[0][:2],), rp)
+    return p
+
+
+def _chain_jobs():
+    return [(f, s_, same, ff, ln) for f in ('r', 'w') for s_ in ('r', 'w') for same in (True, False) for ff in (False, True)
+            for ln in (1, 21, 45)]
+
+
+# ---------------------------------------------------------------------------------------------
 # Part B
 # ---------------------------------------------------------------------------------------------
 # op = (kind, memidx, addr, length)   kind in r / w / wf (flush_queue=True)
@@ -798,7 +902,7 @@ def _fault_user_filter(devs, i, alt, label):
 
 def run(ck):
     cfh.setup()
-    ck.rule = ('(B also: 5 sequences whose last operation is issued by a second user thread at any scheduling point) A: 3 memory ids x 7 start addresses x (read lengths 0..61 + write lengths 0..76, with and without '
+    ck.rule = ('(C: 48 chains - a read / write of the same or another memory started from inside the success or failure notification of a read / write, lengths 1/21/45) (B also: 5 sequences whose last operation is issued by a second user thread at any scheduling point) A: 3 memory ids x 7 start addresses x (read lengths 0..61 + write lengths 0..76, with and without '
                'progress callback) on a fault-free link. B: 22 operation sequences (1-3 reads / writes / flushing writes '
                'on 1-2 memories, lengths 0/1/20/21/26/45) x deviation vectors over per-reply {dup, delay 1.05 s, drop}, '
                'per-request error status, link loss from the driver thread at any point, thread order; each ends with a '
@@ -808,6 +912,7 @@ def run(ck):
     ck.assume('a read overlapping a concurrent write is only checked on bytes no write touched')
     ck.pmap(part_a, [(mid, wp) for mid in MEM_IDS for wp in (False, True)])
     ck.pmap(part_deck, [None])
+    ck.pmap(part_chain, _chain_jobs())
     cs = configs(ck.quick)
     r = explore(ck, exec_c06, cs, 1)
     ck.note('histories_one_deviation', r)
@@ -857,6 +962,12 @@ def replay(ck, data):
     cfh.setup()
     if data.get('part') == 'A':
         print('part A case: re-run the check (sequential sweep)', data)
+        return
+    if data.get('part') == 'C':
+        p = part_chain((data['first'], data['second'], data['same_memory'], data['first_fails'], data['len']))
+        ck.merge(p)
+        for v in p.violations:
+            print(' ', v['sig'], '::', v['what'])
         return
     cfg = data['cfg']
     cfg['ops'] = tuple(tuple(o) for o in cfg['ops'])
